@@ -152,44 +152,69 @@ theorem addStates_append (F : Filter) (b : B) (l1 l2 : List SSpec) (ci : Option 
 
 def B.withEvents (b : B) (evs : List (Nat × List Trans)) : B := { b with cfg := { b.cfg with events := evs } }
 
-/-- `bs` is `b` built with filter `F`: same machine except that every event holds only the transitions
-`F` lets through -/
-def Rel (F : Filter) (b bs : B) : Prop :=
-  ∃ evs, bs = b.withEvents evs ∧
-    ∀ e, alookup e evs = (alookup e b.cfg.events).map (fun l => l.filter (F e))
+/-- never create the transitions of event `ev` that `k` rejects -/
+def suppressK (ev : Nat) (k : Trans → Bool) : Filter := fun e t => e != ev || k t
 
-def RelO (F : Filter) : Option B → Option B → Prop
-  | some x, some y => Rel F x y
+/-- event tables of the real construction (`E`) and of the one in which the transitions of `ev` rejected by
+`k` are never created (`Es`): other events identical; `ev` holds the kept transitions; and `ev` may be
+missing in `Es` while `E` still has it (an earlier removal emptied it there), never the other way round -/
+def EvRel (ev : Nat) (k : Trans → Bool) (E Es : List (Nat × List Trans)) : Prop :=
+  (∀ e, e ≠ ev → alookup e Es = alookup e E) ∧
+  (alookup ev Es).getD [] = ((alookup ev E).getD []).filter k ∧
+  (alookup ev E = none → alookup ev Es = none)
+
+def Rel (ev : Nat) (k : Trans → Bool) (b bs : B) : Prop :=
+  ∃ evs, bs = b.withEvents evs ∧ EvRel ev k b.cfg.events evs
+
+/-- results of one call on both sides; the suppressed side alone may raise only where `allowed` -/
+def RelO (ev : Nat) (k : Trans → Bool) (allowed : Prop) : Option B → Option B → Prop
+  | some x, some y => Rel ev k x y
   | none, none => True
-  | _, _ => False
+  | some _, none => allowed
+  | none, some _ => False
 
-theorem addTrans_rel {F : Filter} {b bs : B} (h : Rel F b bs) (ev : Nat) (ts : List Trans) :
-    Rel F (b.addTrans allT ev ts) (bs.addTrans F ev ts) := by
-  obtain ⟨evs, rfl, he⟩ := h
-  refine ⟨addTo ev (ts.filter (F ev)) evs, rfl, ?_⟩
-  intro e
-  have hT : ts.filter (allT ev) = ts := by simp [List.filter_eq_self, allT]
-  simp only [B.addTrans, hT]
-  rw [alookup_addTo, alookup_addTo]
-  by_cases hh : e = ev
-  · rw [hh]
-    simp only [if_true, he, Option.map_some, List.filter_append]
-    cases alookup ev b.cfg.events <;> simp
-  · simp [hh, he]
+section
+variable {ev : Nat} {k : Trans → Bool}
 
-theorem foldl_rel {α : Type} {F : Filter} (g gs : B → α → B)
-    (hstep : ∀ b bs x, Rel F b bs → Rel F (g b x) (gs bs x)) :
-    ∀ (l : List α) (b bs : B), Rel F b bs → Rel F (l.foldl g b) (l.foldl gs bs) := by
+theorem addTrans_rel {b bs : B} (h : Rel ev k b bs) (e' : Nat) (ts : List Trans) :
+    Rel ev k (b.addTrans allT e' ts) (bs.addTrans (suppressK ev k) e' ts) := by
+  obtain ⟨evs, rfl, h1, h2, h3⟩ := h
+  refine ⟨addTo e' (ts.filter (suppressK ev k e')) evs, rfl, ?_, ?_, ?_⟩
+  all_goals
+    have hT : ts.filter (allT e') = ts := by simp [List.filter_eq_self, allT]
+    simp only [B.addTrans, hT]
+  · intro e hne
+    rw [alookup_addTo, alookup_addTo]
+    by_cases hh : e = e'
+    · have hne' : e' ≠ ev := hh ▸ hne
+      have hF : ts.filter (suppressK ev k e') = ts := by simp [List.filter_eq_self, suppressK, hne']
+      simp only [hh, if_true, hF, h1 e' hne']
+    · simp only [hh, if_false, h1 e hne]
+  · rw [alookup_addTo, alookup_addTo]
+    by_cases hh : ev = e'
+    · subst hh
+      have hF : ts.filter (suppressK ev k ev) = ts.filter k := by
+        apply List.filter_congr; intro t _; simp [suppressK]
+      simp only [if_true, Option.getD_some, hF, h2, List.filter_append]
+    · simp only [hh, if_false, h2]
+  · rw [alookup_addTo, alookup_addTo]
+    by_cases hh : ev = e'
+    · simp [hh]
+    · simp only [hh, if_false]; exact h3
+
+theorem foldl_rel {α : Type} (g gs : B → α → B)
+    (hstep : ∀ b bs x, Rel ev k b bs → Rel ev k (g b x) (gs bs x)) :
+    ∀ (l : List α) (b bs : B), Rel ev k b bs → Rel ev k (l.foldl g b) (l.foldl gs bs) := by
   intro l
   induction l with
   | nil => intro b bs h; exact h
   | cons x r ih => intro b bs h; exact ih _ _ (hstep b bs x h)
 
-theorem Rel.stateNames {F : Filter} {b bs : B} (h : Rel F b bs) : bs.stateNames = b.stateNames := by
+theorem Rel.stateNames {b bs : B} (h : Rel ev k b bs) : bs.stateNames = b.stateNames := by
   obtain ⟨evs, rfl, _⟩ := h; rfl
 
-theorem addTransition_rel {F : Filter} {b bs : B} (h : Rel F b bs) (ev : Nat) (src : Src) (dst : Dst) (cb : CbSpec) :
-    Rel F (b.addTransition allT ev src dst cb) (bs.addTransition F ev src dst cb) := by
+theorem addTransition_rel {b bs : B} (h : Rel ev k b bs) (e' : Nat) (src : Src) (dst : Dst) (cb : CbSpec) :
+    Rel ev k (b.addTransition allT e' src dst cb) (bs.addTransition (suppressK ev k) e' src dst cb) := by
   have hs : bs.sources src = b.sources src := by
     cases src with
     | one s => rfl
@@ -199,8 +224,8 @@ theorem addTransition_rel {F : Filter} {b bs : B} (h : Rel F b bs) (ev : Nat) (s
   rw [hs]
   exact addTrans_rel h _ _
 
-theorem autoTransitions_rel {F : Filter} {b bs : B} (h : Rel F b bs) (name : Nat) :
-    Rel F (b.autoTransitions allT name) (bs.autoTransitions F name) := by
+theorem autoTransitions_rel {b bs : B} (h : Rel ev k b bs) (name : Nat) :
+    Rel ev k (b.autoTransitions allT name) (bs.autoTransitions (suppressK ev k) name) := by
   unfold B.autoTransitions
   rw [h.stateNames]
   refine foldl_rel _ _ ?_ _ _ _ h
@@ -209,13 +234,13 @@ theorem autoTransitions_rel {F : Filter} {b bs : B} (h : Rel F b bs) (name : Nat
   · simp only [hh, if_true]; exact addTransition_rel h _ _ _ _
   · simp only [hh, if_false]; exact addTransition_rel h _ _ _ _
 
-theorem putState_rel {F : Filter} {b bs : B} (h : Rel F b bs) (st : StateDef) :
-    Rel F (b.putState st) (bs.putState st) := by
+theorem putState_rel {b bs : B} (h : Rel ev k b bs) (st : StateDef) :
+    Rel ev k (b.putState st) (bs.putState st) := by
   obtain ⟨evs, rfl, he⟩ := h
   exact ⟨evs, rfl, he⟩
 
-theorem addState_rel {F : Filter} {b bs : B} (h : Rel F b bs) (ci : Option Bool) (s : SSpec) :
-    Rel F (b.addState allT ci s) (bs.addState F ci s) := by
+theorem addState_rel {b bs : B} (h : Rel ev k b bs) (ci : Option Bool) (s : SSpec) :
+    Rel ev k (b.addState allT ci s) (bs.addState (suppressK ev k) ci s) := by
   have ha : bs.auto = b.auto := by obtain ⟨evs, rfl, _⟩ := h; rfl
   have hm : bs.mign = b.mign := by obtain ⟨evs, rfl, _⟩ := h; rfl
   unfold B.addState
@@ -224,17 +249,17 @@ theorem addState_rel {F : Filter} {b bs : B} (h : Rel F b bs) (ci : Option Bool)
   · exact autoTransitions_rel (putState_rel h _) _
   · exact putState_rel h _
 
-theorem addStates_rel {F : Filter} {b bs : B} (h : Rel F b bs) (l : List SSpec) (ci : Option Bool) :
-    Rel F (b.addStates allT l ci) (bs.addStates F l ci) :=
-  foldl_rel (fun acc s => acc.addState allT ci s) (fun acc s => acc.addState F ci s)
+theorem addStates_rel {b bs : B} (h : Rel ev k b bs) (l : List SSpec) (ci : Option Bool) :
+    Rel ev k (b.addStates allT l ci) (bs.addStates (suppressK ev k) l ci) :=
+  foldl_rel (fun acc s => acc.addState allT ci s) (fun acc s => acc.addState (suppressK ev k) ci s)
     (fun _ _ s h => addState_rel h ci s) l b bs h
 
-theorem setInitial_rel {F : Filter} {b bs : B} (h : Rel F b bs) (s : Nat) :
-    Rel F (b.setInitial allT s) (bs.setInitial F s) := by
+theorem setInitial_rel {b bs : B} (h : Rel ev k b bs) (s : Nat) :
+    Rel ev k (b.setInitial allT s) (bs.setInitial (suppressK ev k) s) := by
   simp only [B.setInitial]
   rw [h.stateNames]
-  have h1 : Rel F (if b.stateNames.contains s then b else b.addStates allT [{ name := s }] none)
-      (if b.stateNames.contains s then bs else bs.addStates F [{ name := s }] none) := by
+  have h1 : Rel ev k (if b.stateNames.contains s then b else b.addStates allT [{ name := s }] none)
+      (if b.stateNames.contains s then bs else bs.addStates (suppressK ev k) [{ name := s }] none) := by
     cases b.stateNames.contains s with
     | true => exact h
     | false => exact addStates_rel h _ _
@@ -242,16 +267,17 @@ theorem setInitial_rel {F : Filter} {b bs : B} (h : Rel F b bs) (s : Nat) :
   rw [h2]
   exact ⟨evs, rfl, he⟩
 
-theorem addEdges_rel {F : Filter} {b bs : B} (h : Rel F b bs) (ev : Nat) (es : List ((Nat × Nat) × CbSpec)) :
-    Rel F (b.addEdges allT ev es) (bs.addEdges F ev es) := by
+theorem addEdges_rel {b bs : B} (h : Rel ev k b bs) (e' : Nat) (es : List ((Nat × Nat) × CbSpec)) :
+    Rel ev k (b.addEdges allT e' es) (bs.addEdges (suppressK ev k) e' es) := by
   unfold B.addEdges
-  exact foldl_rel (fun (acc : B) (e : (Nat × Nat) × CbSpec) => acc.addTransition allT ev (.one e.1.1) (.to e.1.2) e.2)
-    (fun (acc : B) (e : (Nat × Nat) × CbSpec) => acc.addTransition F ev (.one e.1.1) (.to e.1.2) e.2)
+  exact foldl_rel (fun (acc : B) (e : (Nat × Nat) × CbSpec) => acc.addTransition allT e' (.one e.1.1) (.to e.1.2) e.2)
+    (fun (acc : B) (e : (Nat × Nat) × CbSpec) => acc.addTransition (suppressK ev k) e' (.one e.1.1) (.to e.1.2) e.2)
     (fun _ _ _ h => addTransition_rel h _ _ _ _) es b bs h
 
-theorem addOrdered_rel {F : Filter} {b bs : B} (h : Rel F b bs) (ev : Nat) (sts : Option (List Nat))
+theorem addOrdered_rel {b bs : B} (h : Rel ev k b bs) (e' : Nat) (sts : Option (List Nat))
     (loop incl : Bool) (c u bf af pr : OArg) :
-    RelO F (b.addOrdered allT ev sts loop incl c u bf af pr) (bs.addOrdered F ev sts loop incl c u bf af pr) := by
+    RelO ev k False (b.addOrdered allT e' sts loop incl c u bf af pr)
+      (bs.addOrdered (suppressK ev k) e' sts loop incl c u bf af pr) := by
   have hi : bs.init = b.init := by obtain ⟨evs, rfl, _⟩ := h; rfl
   simp only [B.addOrdered]
   rw [h.stateNames, hi]
@@ -261,77 +287,146 @@ theorem addOrdered_rel {F : Filter} {b bs : B} (h : Rel F b bs) (ev : Nat) (sts 
     · trivial
     · exact addEdges_rel h _ _
 
-theorem remove_rel {F : Filter} {b bs : B} (h : Rel F b bs) (ev : Nat) (S D : Option (List Sel))
-    (hF : ∀ t, F ev t = true) : RelO F (b.remove ev S D) (bs.remove ev S D) := by
-  obtain ⟨evs, rfl, he⟩ := h
-  have hid : ∀ l : List Trans, l.filter (F ev) = l := fun l => by
-    simp [List.filter_eq_self, hF]
-  have h0 : alookup ev evs = alookup ev b.cfg.events := by
-    rw [he ev]; cases alookup ev b.cfg.events <;> simp [hid]
-  simp only [B.remove]
+/-- the event table after `remove_transition` left `l'` for the (known) event `e` -/
+def afterRemove (e : Nat) (l' : List Trans) (X : List (Nat × List Trans)) : List (Nat × List Trans) :=
+  if l'.isEmpty then delKey e X else setKey e l' X
+
+theorem alookup_afterRemove_ne (e e' : Nat) (l' : List Trans) (X : List (Nat × List Trans)) (h : e ≠ e') :
+    alookup e (afterRemove e' l' X) = alookup e X := by
+  unfold afterRemove
+  split
+  · rw [alookup_delKey]; simp [h]
+  · rw [alookup_setKey]; simp [h]
+
+theorem alookup_afterRemove_self (e : Nat) (l' l0 : List Trans) (X : List (Nat × List Trans))
+    (h : alookup e X = some l0) :
+    alookup e (afterRemove e l' X) = if l'.isEmpty then none else some l' := by
+  unfold afterRemove
+  split
+  · rw [alookup_delKey]; simp
+  · rw [alookup_setKey]; simp [h]
+
+theorem getD_ite_empty (l' : List Trans) : (if l'.isEmpty then none else some l').getD [] = l' := by
+  cases l' <;> simp
+
+theorem remove_eq (b : B) (e : Nat) (S D : Option (List Nat)) (l : List Trans) (h : alookup e b.cfg.events = some l) :
+    b.remove e S D = some (b.withEvents (afterRemove e (l.filter (keepT S D)) b.cfg.events)) := by
+  simp only [B.remove, h, afterRemove, B.withEvents]
+
+theorem remove_none (b : B) (e : Nat) (S D : Option (List Nat)) (h : alookup e b.cfg.events = none) :
+    b.remove e S D = none := by
+  simp only [B.remove, h]
+
+theorem remove_rel {b bs : B} (h : Rel ev k b bs) (e' : Nat) (S D : Option (List Nat)) :
+    RelO ev k (e' = ev) (b.remove e' S D) (bs.remove e' S D) := by
+  obtain ⟨evs, rfl, h1, h2, h3⟩ := h
   have hb : (b.withEvents evs).cfg.events = evs := rfl
-  rw [hb, h0]
-  cases hl : alookup ev b.cfg.events with
-  | none => trivial
-  | some l =>
-    simp only [RelO]
-    by_cases hem : (l.filter (keepT S D)).isEmpty = true
-    · simp only [hem, if_true]
-      refine ⟨delKey ev evs, rfl, ?_⟩
-      intro e
-      show alookup e (delKey ev evs) = (alookup e (delKey ev b.cfg.events)).map _
-      rw [alookup_delKey, alookup_delKey]
-      by_cases hh : e = ev
-      · simp [hh]
-      · simp [hh, he]
-    · simp only [hem]
-      refine ⟨setKey ev (l.filter (keepT S D)) evs, rfl, ?_⟩
-      intro e
-      show alookup e (setKey ev _ evs) = (alookup e (setKey ev _ b.cfg.events)).map _
-      rw [alookup_setKey, alookup_setKey]
-      by_cases hh : e = ev
-      · subst hh
-        simp [h0, hl, hid]
-      · simp [hh, he]
+  by_cases hne : e' = ev
+  · subst hne
+    cases hl : alookup e' b.cfg.events with
+    | none =>
+      rw [remove_none _ _ _ _ hl, remove_none _ _ _ _ (by rw [hb]; exact h3 hl)]
+      trivial
+    | some l =>
+      rw [remove_eq _ _ _ _ _ hl]
+      cases hls : alookup e' evs with
+      | none => rw [remove_none _ _ _ _ (by rw [hb]; exact hls)]; exact rfl
+      | some ls =>
+        rw [remove_eq _ _ S D ls (by rw [hb]; exact hls), hb]
+        have hls2 : ls = l.filter k := by simpa [hl, hls] using h2
+        have hcomm : ls.filter (keepT S D) = (l.filter (keepT S D)).filter k := by
+          rw [hls2, List.filter_filter, List.filter_filter]
+          apply List.filter_congr; intro t _; exact Bool.and_comm _ _
+        refine ⟨afterRemove e' (ls.filter (keepT S D)) evs, rfl, ?_, ?_, ?_⟩
+        · intro e hne
+          show alookup e (afterRemove _ _ evs) = alookup e (afterRemove _ _ b.cfg.events)
+          rw [alookup_afterRemove_ne _ _ _ _ hne, alookup_afterRemove_ne _ _ _ _ hne]
+          exact h1 e hne
+        · show (alookup e' (afterRemove _ _ evs)).getD [] = ((alookup e' (afterRemove _ _ b.cfg.events)).getD []).filter k
+          rw [alookup_afterRemove_self _ _ _ _ hls, alookup_afterRemove_self _ _ _ _ hl, hcomm,
+            getD_ite_empty, getD_ite_empty]
+        · show alookup e' (afterRemove _ _ b.cfg.events) = none → alookup e' (afterRemove _ _ evs) = none
+          rw [alookup_afterRemove_self _ _ _ _ hls, alookup_afterRemove_self _ _ _ _ hl, hcomm]
+          cases hx : l.filter (keepT S D) with
+          | nil => simp
+          | cons x r => simp
+  · have h0 : alookup e' evs = alookup e' b.cfg.events := h1 e' hne
+    cases hl : alookup e' b.cfg.events with
+    | none =>
+      rw [remove_none _ _ _ _ hl, remove_none _ _ _ _ (by rw [hb, h0]; exact hl)]
+      trivial
+    | some l =>
+      rw [remove_eq _ _ _ _ _ hl, remove_eq _ _ S D l (by rw [hb, h0]; exact hl), hb]
+      have hne' : ev ≠ e' := fun x => hne x.symm
+      refine ⟨afterRemove e' (l.filter (keepT S D)) evs, rfl, ?_, ?_, ?_⟩
+      · intro e hne2
+        show alookup e (afterRemove _ _ evs) = alookup e (afterRemove _ _ b.cfg.events)
+        by_cases hh : e = e'
+        · subst hh
+          rw [alookup_afterRemove_self _ _ _ _ (h0.trans hl), alookup_afterRemove_self _ _ _ _ hl]
+        · rw [alookup_afterRemove_ne _ _ _ _ hh, alookup_afterRemove_ne _ _ _ _ hh]
+          exact h1 e hne2
+      · show (alookup ev (afterRemove _ _ evs)).getD [] = ((alookup ev (afterRemove _ _ b.cfg.events)).getD []).filter k
+        rw [alookup_afterRemove_ne _ _ _ _ hne', alookup_afterRemove_ne _ _ _ _ hne']
+        exact h2
+      · show alookup ev (afterRemove _ _ b.cfg.events) = none → alookup ev (afterRemove _ _ evs) = none
+        rw [alookup_afterRemove_ne _ _ _ _ hne', alookup_afterRemove_ne _ _ _ _ hne']
+        exact h3
+
+end
 
 def Op.removesEvent : Op → Option Nat
   | .remove ev _ _ => some ev
   | _ => none
 
-theorem applyOp_rel {F : Filter} {b bs : B} (h : Rel F b bs) (op : Op)
-    (hF : ∀ ev, op.removesEvent = some ev → ∀ t, F ev t = true) :
-    RelO F (applyOpF allT b op) (applyOpF F bs op) := by
+theorem RelO.weaken {ev : Nat} {k : Trans → Bool} {p q : Prop} (hpq : p → q) {x y : Option B}
+    (h : RelO ev k p x y) : RelO ev k q x y := by
+  cases x <;> cases y <;> first | exact h | exact hpq h
+
+theorem applyOp_rel {ev : Nat} {k : Trans → Bool} {b bs : B} (h : Rel ev k b bs) (op : Op) :
+    RelO ev k (op.removesEvent = some ev) (applyOpF allT b op) (applyOpF (suppressK ev k) bs op) := by
   cases op with
   | addStates l ci => exact addStates_rel h l ci
-  | addTransition ev src dst cb => exact addTransition_rel h ev src dst cb
-  | addOrdered ev sts loop incl c u bf af pr => exact addOrdered_rel h ev sts loop incl c u bf af pr
-  | remove ev S D => exact remove_rel h ev S D (hF ev rfl)
+  | addTransition e' src dst cb => exact addTransition_rel h e' src dst cb
+  | addOrdered e' sts loop incl c u bf af pr =>
+    exact (addOrdered_rel h e' sts loop incl c u bf af pr).weaken False.elim
+  | remove e' S D => exact (remove_rel h e' S D).weaken (fun x => by simp [Op.removesEvent, x])
   | setInitial s => exact setInitial_rel h s
 
-theorem applyOps_rel {F : Filter} : ∀ (ops : List Op) (b bs : B), Rel F b bs →
-    (∀ op ∈ ops, ∀ ev, op.removesEvent = some ev → ∀ t, F ev t = true) →
-    RelO F (applyOpsF allT b ops) (applyOpsF F bs ops) := by
+/-- along a script that the real construction completes: whenever the suppressed construction completes
+too the results are related, and it does complete when the script never removes from `ev` -/
+theorem applyOps_rel {ev : Nat} {k : Trans → Bool} : ∀ (ops : List Op) (b bs b' : B), Rel ev k b bs →
+    applyOpsF allT b ops = some b' →
+    (∀ bs', applyOpsF (suppressK ev k) bs ops = some bs' → Rel ev k b' bs') ∧
+    ((∀ op ∈ ops, op.removesEvent ≠ some ev) → ∃ bs', applyOpsF (suppressK ev k) bs ops = some bs') := by
   intro ops
   induction ops with
-  | nil => intro b bs h _; exact h
+  | nil =>
+    intro b bs b' h hb
+    simp only [applyOpsF, Option.some.injEq] at hb
+    subst hb
+    exact ⟨fun bs' hs => by simp only [applyOpsF, Option.some.injEq] at hs; exact hs ▸ h, fun _ => ⟨bs, rfl⟩⟩
   | cons op r ih =>
-    intro b bs h hF
-    have h1 := applyOp_rel h op (hF op (List.mem_cons_self ..))
-    simp only [applyOpsF]
+    intro b bs b' h hb
+    have h1 := applyOp_rel h op
+    simp only [applyOpsF] at hb ⊢
     cases h2 : applyOpF allT b op with
-    | none =>
-      cases h3 : applyOpF F bs op with
-      | none => trivial
-      | some y => rw [h2, h3] at h1; exact h1.elim
+    | none => simp [h2] at hb
     | some x =>
-      cases h3 : applyOpF F bs op with
-      | none => rw [h2, h3] at h1; exact h1.elim
+      rw [h2] at hb h1
+      simp only at hb
+      cases h3 : applyOpF (suppressK ev k) bs op with
+      | none =>
+        rw [h3] at h1
+        refine ⟨fun bs' hs => by simp at hs, fun hno => ?_⟩
+        exact absurd h1 (hno op (List.mem_cons_self ..))
       | some y =>
-        rw [h2, h3] at h1
-        exact ih x y h1 (fun op' hm => hF op' (List.mem_cons_of_mem _ hm))
+        rw [h3] at h1
+        obtain ⟨ih1, ih2⟩ := ih x y b' h1 hb
+        exact ⟨fun bs' hs => ih1 bs' hs, fun hno => ih2 (fun op' hm => hno op' (List.mem_cons_of_mem _ hm))⟩
 
 /-- the transitions `remove_transition(ev, S, D)` deletes are never created -/
-def suppress (ev : Nat) (S D : Option (List Sel)) : Filter := fun e t => e != ev || keepT S D t
+def suppress (ev : Nat) (S D : Option (List Nat)) : Filter := suppressK ev (keepT S D)
 
 /-- an event without transitions does not exist (what `remove_transition` does when nothing is left) -/
 def B.dropEmptyEvent (b : B) (ev : Nat) : B :=
@@ -339,8 +434,8 @@ def B.dropEmptyEvent (b : B) (ev : Nat) : B :=
   | some [] => b.withEvents (delKey ev b.cfg.events)
   | _ => b
 
-theorem start_rel (F : Filter) (o : Opts) : Rel F (start o) (start o) :=
-  ⟨[], rfl, fun _ => rfl⟩
+theorem start_rel (ev : Nat) (k : Trans → Bool) (o : Opts) : Rel ev k (start o) (start o) :=
+  ⟨[], rfl, fun _ _ => rfl, rfl, fun _ => rfl⟩
 
 theorem equiv_of_lookup (x : B) (evs : List (Nat × List Trans))
     (h : ∀ e, alookup e evs = alookup e x.cfg.events) : x.cfg ≈ (x.withEvents evs).cfg where
@@ -357,78 +452,66 @@ theorem equiv_of_lookup (x : B) (evs : List (Nat × List Trans))
   queued := rfl
   initial := rfl
 
-theorem remove_core (o : Opts) (ops : List Op) (ev : Nat) (S D : Option (List Sel))
-    (hno : ∀ op ∈ ops, op.removesEvent ≠ some ev) (b : B) (hb : build o ops = some b) :
-    ∃ bs, buildF (suppress ev S D) o ops = some bs ∧
-      match b.remove ev S D with
-      | none => b.cfg.event? ev = none
-      | some b' => b'.cfg ≈ (bs.dropEmptyEvent ev).cfg ∧ b'.init = (bs.dropEmptyEvent ev).init ∧
-          b'.auto = (bs.dropEmptyEvent ev).auto ∧ b'.mign = (bs.dropEmptyEvent ev).mign := by
-  have hF : ∀ op ∈ ops, ∀ e, op.removesEvent = some e → ∀ t, suppress ev S D e t = true := by
-    intro op hm e he t
-    have : e ≠ ev := fun x => hno op hm (x ▸ he)
-    simp [suppress, this]
-  have h := applyOps_rel ops _ _ (start_rel (suppress ev S D) o) hF
-  have hb' : applyOpsF allT (start o) ops = some b := hb
-  rw [hb'] at h
-  cases h3 : applyOpsF (suppress ev S D) (start o) ops with
-  | none => rw [h3] at h; exact h.elim
-  | some bs =>
-    rw [h3] at h
-    refine ⟨bs, h3, ?_⟩
-    obtain ⟨evs, rfl, he⟩ := h
-    have hself : ∀ t, suppress ev S D ev t = keepT S D t := fun t => by simp [suppress]
-    have hother : ∀ e, e ≠ ev → ∀ l : List Trans, l.filter (suppress ev S D e) = l := by
-      intro e hne l
-      simp [List.filter_eq_self, suppress, hne]
-    simp only [B.remove]
-    cases hl : alookup ev b.cfg.events with
-    | none => simp [Cfg.event?, hl]
-    | some l =>
-      have hevs : alookup ev evs = some (l.filter (keepT S D)) := by
-        rw [he ev, hl]
-        simp only [Option.map_some]
-        congr 1
-        exact List.filter_congr (fun t _ => hself t)
-      simp only []
-      by_cases hem : (l.filter (keepT S D)).isEmpty = true
-      · have hnil : l.filter (keepT S D) = [] := List.isEmpty_iff.mp hem
-        have hd : (b.withEvents evs).dropEmptyEvent ev = b.withEvents (delKey ev evs) := by
-          simp only [B.dropEmptyEvent]
-          have : (b.withEvents evs).cfg.events = evs := rfl
-          rw [this, hevs, hnil]
-          rfl
-        rw [hd]
-        simp only [hem, if_true]
-        refine ⟨?_, rfl, rfl, rfl⟩
-        have := equiv_of_lookup (b.withEvents (delKey ev b.cfg.events)) (delKey ev evs) (by
+/-- what the final `remove_transition(ev, S, D)` gives, against the suppressed machine `bs` -/
+def RemoveResult (b bs : B) (ev : Nat) (S D : Option (List Nat)) : Prop :=
+  match b.remove ev S D with
+  | none => b.cfg.event? ev = none
+  | some b' => b'.cfg ≈ (bs.dropEmptyEvent ev).cfg ∧ b'.init = (bs.dropEmptyEvent ev).init ∧
+      b'.auto = (bs.dropEmptyEvent ev).auto ∧ b'.mign = (bs.dropEmptyEvent ev).mign
+
+theorem removeResult_of_rel (b bs : B) (ev : Nat) (S D : Option (List Nat)) (h : Rel ev (keepT S D) b bs) :
+    RemoveResult b bs ev S D := by
+  obtain ⟨evs, rfl, h1, h2, h3⟩ := h
+  unfold RemoveResult
+  have hb : (b.withEvents evs).cfg.events = evs := rfl
+  cases hl : alookup ev b.cfg.events with
+  | none => rw [remove_none _ _ _ _ hl]; exact hl
+  | some l =>
+    rw [remove_eq _ _ _ _ _ hl]
+    simp only [hl, Option.getD_some] at h2
+    have key : ∃ evs', (b.withEvents evs).dropEmptyEvent ev = b.withEvents evs' ∧
+        ∀ e, alookup e evs' = alookup e (afterRemove ev (l.filter (keepT S D)) b.cfg.events) := by
+      cases hls : alookup ev evs with
+      | none =>
+        refine ⟨evs, by simp only [B.dropEmptyEvent, hb, hls], ?_⟩
+        intro e
+        by_cases hh : e = ev
+        · subst hh
+          rw [alookup_afterRemove_self _ _ _ _ hl, hls]
+          simp only [hls, Option.getD_none] at h2
+          simp [← h2]
+        · rw [alookup_afterRemove_ne _ _ _ _ hh]; exact h1 e hh
+      | some ls =>
+        simp only [hls, Option.getD_some] at h2
+        cases ls with
+        | nil =>
+          refine ⟨delKey ev evs, by simp only [B.dropEmptyEvent, hb, hls]; rfl, ?_⟩
           intro e
-          show alookup e (delKey ev evs) = alookup e (delKey ev b.cfg.events)
-          rw [alookup_delKey, alookup_delKey]
+          rw [alookup_delKey]
           by_cases hh : e = ev
-          · simp [hh]
-          · simp only [hh, if_false, he e]
-            cases alookup e b.cfg.events <;> simp [hother e hh])
-        exact this
-      · have hd : (b.withEvents evs).dropEmptyEvent ev = b.withEvents evs := by
-          simp only [B.dropEmptyEvent]
-          have : (b.withEvents evs).cfg.events = evs := rfl
-          rw [this, hevs]
-          cases hx : l.filter (keepT S D) with
-          | nil => simp [hx] at hem
-          | cons _ _ => rfl
-        rw [hd]
-        simp only [hem]
-        refine ⟨?_, rfl, rfl, rfl⟩
-        have := equiv_of_lookup (b.withEvents (setKey ev (l.filter (keepT S D)) b.cfg.events)) evs (by
+          · subst hh
+            rw [alookup_afterRemove_self _ _ _ _ hl]
+            simp [← h2]
+          · rw [alookup_afterRemove_ne _ _ _ _ hh]; simp only [hh, if_false]; exact h1 e hh
+        | cons x r =>
+          refine ⟨evs, by simp only [B.dropEmptyEvent, hb, hls], ?_⟩
           intro e
-          show alookup e evs = alookup e (setKey ev _ b.cfg.events)
-          rw [alookup_setKey]
           by_cases hh : e = ev
-          · subst hh; simp [hevs, hl]
-          · simp only [hh, if_false, he e]
-            cases alookup e b.cfg.events <;> simp [hother e hh])
-        exact this
+          · subst hh
+            rw [alookup_afterRemove_self _ _ _ _ hl, hls, ← h2]
+            simp
+          · rw [alookup_afterRemove_ne _ _ _ _ hh]; exact h1 e hh
+    obtain ⟨evs', hd, hlook⟩ := key
+    rw [hd]
+    exact ⟨equiv_of_lookup (b.withEvents (afterRemove ev (l.filter (keepT S D)) b.cfg.events)) evs' hlook,
+      rfl, rfl, rfl⟩
+
+theorem remove_core (o : Opts) (ops : List Op) (ev : Nat) (S D : Option (List Nat)) (b : B)
+    (hb : build o ops = some b) :
+    (∀ bs, buildF (suppress ev S D) o ops = some bs → RemoveResult b bs ev S D) ∧
+    ((∀ op ∈ ops, op.removesEvent ≠ some ev) → ∃ bs, buildF (suppress ev S D) o ops = some bs) := by
+  obtain ⟨h1, h2⟩ := applyOps_rel ops (start o) (start o) b (start_rel ev (keepT S D) o) hb
+  exact ⟨fun bs hs => removeResult_of_rel b bs ev S D (h1 bs hs), h2⟩
 
 end Build
 end TM
